@@ -184,6 +184,9 @@ def setup():
     shutil.copytree(f"{VERIF}/regressions", f"{SCR}/verif/regressions")
 
 def apply(m):
+    if m.get("patch"):
+        rc, out = sh(f"git apply {m['patch']}", cwd=REPO)
+        return None if rc == 0 else f"patch does not apply: {out[-200:]}"
     for (f, old, new) in m["edits"]:
         p = f"{REPO}/{f}"
         s = open(p).read()
@@ -199,6 +202,12 @@ def main():
     setup()
     resf = f"{VERIF}/tools/sensitivity_results.json"
     results = json.load(open(resf)) if os.path.exists(resf) else {}
+    if "--seeded" in sys.argv:
+        import glob
+        M.clear()
+        for d in sorted(glob.glob(f"{VERIF}/seeded/*/")):
+            meta = json.load(open(d + "meta.json"))
+            M.append(dict(name="seeded:" + os.path.basename(d.rstrip("/")), props=meta.get("caught_by_quick_checks", [meta["property"]]), edits=[], patch=d + "patch.diff", note=meta.get("summary", "")))
     todo = [m for m in M if not args or any(a in m["name"] for a in args)]
     for m in todo:
         sh("git checkout -- .", cwd=REPO)
